@@ -36,11 +36,22 @@ Definition enc_out (r : out) : list Z :=
   | OInvalid => [12]
   end.
 
-(* after every step: the answer, every live object (identity, id, content, source) and the directory *)
+(* membership as every instance answers it (the model's Contains step), by id for every id of the
+   pool and by object for every live object; instances 0 and 1, ids 0..3 as in tools/c14.py *)
+Definition obs_insts : list iid := [0; 1]%nat.
+Definition obs_keys : list key := [0; 1; 2; 3]%nat.
+Definition contains_z (s : st) (i : iid) (k : key) : Z :=
+  match snd (step s (Contains i k)) with OBool _ b => zb b | _ => -1 end.
+Definition member_rows (s : st) : list (list Z) :=
+  [ flat_map (fun i => map (contains_z s i) obs_keys) obs_insts;
+    concat (sort_rows (map (fun p => zn (fst p) :: map (fun i => contains_z s i (okey (snd p))) obs_insts) (heap s))) ].
+
+(* after every step: the answer, every live object (identity, id, content, source), the directory,
+   and membership through every instance (by id, by live object) *)
 Definition observe (s : st) (r : out) : list (list Z) :=
   [ enc_out r;
     concat (sort_rows (map (fun p => [zn (fst p); zn (okey (snd p)); zn (oval (snd p))] ++ enc_src (osrc (snd p))) (heap s)));
-    concat (sort_rows (map (fun p => [zn (fst p); zn (snd p)]) (fs s))) ].
+    concat (sort_rows (map (fun p => [zn (fst p); zn (snd p)]) (fs s))) ] ++ member_rows s.
 
 Fixpoint trace (s : st) (ops : list op) : list (list (list Z)) :=
   match ops with
@@ -60,7 +71,7 @@ Definition sched_obs (p1 p2 : tprog) (i : iid) (k : key) (pre : list op) (sched 
   let '(s', r) := get s i k true in
   [ enc_res c1; enc_res c2; enc_out r;
     concat (sort_rows (map (fun p => [zn (fst p); zn (okey (snd p)); zn (oval (snd p))] ++ enc_src (osrc (snd p))) (heap s')));
-    concat (sort_rows (map (fun p => [zn (fst p); zn (snd p)]) (fs s'))) ].
+    concat (sort_rows (map (fun p => [zn (fst p); zn (snd p)]) (fs s'))) ] ++ member_rows s'.
 Definition check_sched (c : tprog * tprog * iid * key * list op * list bool * Z) : bool :=
   let '(p1, p2, i, k, pre, sched, expected) := c in
   Z.eqb (hash_zll 0 (sched_obs p1 p2 i k pre sched)) expected.
